@@ -80,6 +80,25 @@ func checkPlanSortOrder(c *Ctx, pp string) {
 			if _, ok := k.(*ast.TypeSwitchStmt); ok {
 				loop = rs
 			}
+			// or a package-local dispatcher given the loop variable, whose body type-switches over it
+			if call, ok := k.(*ast.CallExpr); ok {
+				if fn := calleeOf(info, call); fn != nil && fn.Pkg() != nil && fn.Pkg().Path() == pp {
+					if cf := c.FuncInfoOf(fn); cf != nil && cf.Decl.Body != nil {
+						ast.Inspect(cf.Decl.Body, func(j ast.Node) bool {
+							if _, ok := j.(*ast.TypeSwitchStmt); ok {
+								if v, ok := rs.Value.(*ast.Ident); ok {
+									for _, a := range call.Args {
+										if id, ok := ast.Unparen(a).(*ast.Ident); ok && info.ObjectOf(id) == info.ObjectOf(v) {
+											loop = rs
+										}
+									}
+								}
+							}
+							return true
+						})
+					}
+				}
+			}
 			return true
 		})
 		return true
@@ -114,6 +133,42 @@ func checkPlanSortOrder(c *Ctx, pp string) {
 		}
 	}
 	isDetach, isSort := mk("DetachCycles"), mk("SortChanges")
+	// the two steps may live in a package-local ordering helper: list, err = s.ordered(list)
+	isOrdered := func(n ast.Node) bool {
+		as, ok := n.(*ast.AssignStmt)
+		if !ok || len(as.Rhs) != 1 {
+			return false
+		}
+		call, ok := as.Rhs[0].(*ast.CallExpr)
+		if !ok || len(call.Args) == 0 {
+			return false
+		}
+		fn := calleeOf(info, call)
+		if fn == nil || fn.Pkg() == nil || fn.Pkg().Path() != pp {
+			return false
+		}
+		l, ok2 := as.Lhs[0].(*ast.Ident)
+		if !ok2 || info.ObjectOf(l) != listObj {
+			return false
+		}
+		ai := -1
+		for i, a := range call.Args {
+			if id, ok := ast.Unparen(a).(*ast.Ident); ok && info.ObjectOf(id) == listObj {
+				ai = i
+			}
+		}
+		return ai >= 0 && orderingHelperOK(c, fn, ai)
+	}
+	if len(f.find(isOrdered)) == 1 && len(f.find(isDetach)) == 0 && len(f.find(isSort)) == 0 {
+		c.Check("R04a", key+"|has DetachCycles(list)→list", fi.Decl.Pos(), true, "")
+		c.Check("R04a", key+"|has SortChanges(list)→list", fi.Decl.Pos(), true, "")
+		head := func(b *cfg.Block) bool { return b.Kind == cfg.KindRangeLoop && b.Stmt == ast.Stmt(loop) }
+		bypass := f.reachBlock([]point{f.entry()}, isOrdered, head)
+		c.Check("R04a", key+"|SortChanges dominates the statement loop", loop.Pos(), !bypass, "the statement loop is reachable without the ordering helper")
+		c.Check("R04a", key+"|DetachCycles dominates the statement loop", loop.Pos(), !bypass, "the statement loop is reachable without the ordering helper")
+		c.Check("R04a", key+"|DetachCycles≺SortChanges", fi.Decl.Pos(), true, "")
+		return
+	}
 	isLoopHead := func(b *cfg.Block) bool { return b.Kind == cfg.KindRangeLoop && b.Stmt == ast.Stmt(loop) }
 	unsorted := func(b *cfg.Block, si int) bool {
 		return edgeImplies(b, si, func(e ast.Expr, val bool) bool {
@@ -784,16 +839,37 @@ func checkSortMap(c *Ctx) {
 	if df := c.Func("R04d", pSqlx, "", "DetachCycles"); df != nil {
 		info := df.Info()
 		ok := false
-		ast.Inspect(df.Decl.Body, func(m ast.Node) bool {
-			ifs, isIf := m.(*ast.IfStmt)
-			if !isIf {
-				return true
-			}
-			if call, isCall := ifs.Cond.(*ast.CallExpr); isCall {
-				if fn := calleeOf(info, call); fn != nil && fn.Pkg().Path() == "errors" && fn.Name() == "Is" && len(call.Args) == 2 {
+		isCycleTest := func(e ast.Expr) bool {
+			e = ast.Unparen(e)
+			if call, isCall := e.(*ast.CallExpr); isCall {
+				if fn := calleeOf(info, call); fn != nil && fn.Pkg() != nil && fn.Pkg().Path() == "errors" && fn.Name() == "Is" && len(call.Args) == 2 {
 					if id, isID := call.Args[1].(*ast.Ident); isID && id.Name == "errCycle" {
-						if nodeHasCall(info, ifs.Body, isCallTo(pSqlx, "", "detachReferences")) != nil {
-							ok = true
+						return true
+					}
+				}
+			}
+			if be, isBin := e.(*ast.BinaryExpr); isBin && be.Op == token.EQL {
+				for _, x := range []ast.Expr{be.X, be.Y} {
+					if id, isID := ast.Unparen(x).(*ast.Ident); isID && id.Name == "errCycle" {
+						return true
+					}
+				}
+			}
+			return false
+		}
+		ast.Inspect(df.Decl.Body, func(m ast.Node) bool {
+			switch x := m.(type) {
+			case *ast.IfStmt:
+				if isCycleTest(x.Cond) && nodeHasCall(info, x.Body, isCallTo(pSqlx, "", "detachReferences")) != nil {
+					ok = true
+				}
+			case *ast.CaseClause:
+				for _, e := range x.List {
+					if isCycleTest(e) {
+						for _, st := range x.Body {
+							if nodeHasCall(info, st, isCallTo(pSqlx, "", "detachReferences")) != nil {
+								ok = true
+							}
 						}
 					}
 				}
@@ -998,4 +1074,95 @@ func derefType(t types.Type) types.Type {
 		return p.Elem()
 	}
 	return t
+}
+
+// orderingHelperOK: fn (a package-local function) returns, on every successful return, either
+// SortChanges(DetachCycles(p)) of its ai-th parameter p, or p itself on a path that established
+// Mode == PlanModeUnsortedDump.
+func orderingHelperOK(c *Ctx, fn *types.Func, ai int) bool {
+	cf := c.FuncInfoOf(fn)
+	if cf == nil || cf.Decl.Body == nil {
+		return false
+	}
+	info := cf.Info()
+	var ps []*ast.Ident
+	for _, fld := range cf.Decl.Type.Params.List {
+		ps = append(ps, fld.Names...)
+	}
+	if ai >= len(ps) {
+		return false
+	}
+	param := info.ObjectOf(ps[ai])
+	isObj := func(e ast.Expr, set map[types.Object]bool) bool {
+		id, ok := ast.Unparen(e).(*ast.Ident)
+		return ok && set[info.ObjectOf(id)]
+	}
+	detached := map[types.Object]bool{}
+	sorted := map[types.Object]bool{}
+	isCallOf := func(e ast.Expr, name string, arg map[types.Object]bool) bool {
+		call, ok := ast.Unparen(e).(*ast.CallExpr)
+		if !ok || len(call.Args) == 0 {
+			return false
+		}
+		g := calleeOf(info, call)
+		return g != nil && c.forwardsTo(g, pSqlx, name) && isObj(call.Args[0], arg)
+	}
+	pset := map[types.Object]bool{param: true}
+	for round := 0; round < 2; round++ {
+		ast.Inspect(cf.Decl.Body, func(m ast.Node) bool {
+			as, ok := m.(*ast.AssignStmt)
+			if !ok || len(as.Rhs) != 1 {
+				return true
+			}
+			l, ok := as.Lhs[0].(*ast.Ident)
+			if !ok {
+				return true
+			}
+			if isCallOf(as.Rhs[0], "DetachCycles", pset) {
+				detached[info.ObjectOf(l)] = true
+			}
+			if isCallOf(as.Rhs[0], "SortChanges", detached) {
+				sorted[info.ObjectOf(l)] = true
+			}
+			return true
+		})
+	}
+	f := newFlow(info, cf.Decl.Body)
+	unsorted := func(b *cfg.Block, si int) bool {
+		return edgeImplies(b, si, func(e ast.Expr, val bool) bool {
+			be, ok := e.(*ast.BinaryExpr)
+			if !ok {
+				return false
+			}
+			isMode := strings.HasSuffix(types.ExprString(be.X), ".Mode") && strings.HasSuffix(types.ExprString(be.Y), "PlanModeUnsortedDump")
+			return isMode && ((be.Op == token.NEQ && !val) || (be.Op == token.EQL && val))
+		})
+	}
+	good, nSorted := true, 0
+	ast.Inspect(cf.Decl.Body, func(m ast.Node) bool {
+		if _, isLit := m.(*ast.FuncLit); isLit {
+			return false
+		}
+		r, ok := m.(*ast.ReturnStmt)
+		if !ok || len(r.Results) < 1 {
+			return true
+		}
+		if len(r.Results) >= 2 && !isNilIdent(info, r.Results[len(r.Results)-1]) {
+			return true // error return
+		}
+		switch {
+		case isObj(r.Results[0], sorted) || isCallOf(r.Results[0], "SortChanges", detached):
+			nSorted++
+		case isObj(r.Results[0], pset):
+			// only on the unsorted-dump edge
+			if _, leak := f.reachEx([]point{f.entry()}, nil, func(n ast.Node) bool { return n == ast.Node(r) }, unsorted); leak {
+				good = false
+			}
+		case isNilIdent(info, r.Results[0]):
+		default:
+			good = false
+		}
+		return true
+	})
+	return good && nSorted > 0
 }
